@@ -78,14 +78,40 @@ def fieldsig(t):
     return tuple((f.name, tdesc(f.type)) for f in fields(t))
 
 
-def ev_item(e):
+def parse_root(s):
+    """'capture.msg[3]' -> Path (the caller-chosen root under which a value is decoded); '' -> None (default root)"""
+    if not s:
+        return None
+    import re
+    from tpmstream.common.path import Path, PathNode
+    nodes = []
+    for seg in s.split("."):
+        m = re.fullmatch(r"([^\[\]]*)(?:\[(\d+)\])?", seg)
+        nodes.append(PathNode(m.group(1), None if m.group(2) is None else int(m.group(2))))
+    return Path(nodes)
+
+
+def unroot(path, root=""):
+    """string form of a path relative to the root the decode was started under (the oracles work with paths relative to
+    the default root); a path that does not lie under the root is marked - it can never match an expectation"""
+    s = str(path)
+    if not root:
+        return s
+    if s == root:
+        return ""
+    if s.startswith(root + "."):
+        return s[len(root):]
+    return "!not-under-root(%s)" % s
+
+
+def ev_item(e, root=""):
     """comparable form of an event (mirrors model items, without offsets)"""
     if isinstance(e, MarshalEvent):
         if e.value is ...:
-            return ("S", str(e.path), tdesc(e.type), fieldsig(e.type))
-        return ("P", str(e.path), tdesc(e.type), int(e.value), type(e.value).__name__)
+            return ("S", unroot(e.path, root), tdesc(e.type), fieldsig(e.type))
+        return ("P", unroot(e.path, root), tdesc(e.type), int(e.value), type(e.value).__name__)
     if isinstance(e, WarningEvent):
-        return ("W",) + errsum(e.error)
+        return ("W",) + errsum(e.error, root=root)
     return ("?", repr(e))
 
 
@@ -101,24 +127,24 @@ def _cc(v):
     return None if v is None else int(v)
 
 
-def errsum(exc, remaining=None):
+def errsum(exc, remaining=None, root=""):
     """summary tuple of an exception: class name + the detail attributes the properties name"""
     n = type(exc).__name__
     try:
         if isinstance(exc, ValueConstraintViolatedError):
             c = exc.constraint
-            return (n, str(c.constraint_path), tdesc(c.tpm_type), None if exc.value is None else int(exc.value))
+            return (n, unroot(c.constraint_path, root), tdesc(c.tpm_type), None if exc.value is None else int(exc.value))
         if isinstance(exc, AnticipatedSizeConstraintExceededError):
             c = exc.constraint
-            return (n, str(c.constraint_path), c.size_max, c.size_already, str(exc.violator_path),
+            return (n, unroot(c.constraint_path, root), c.size_max, c.size_already, unroot(exc.violator_path, root),
                     int(exc.violator_value), int(exc.exceeded_by))
         if isinstance(exc, SizeConstraintExceededError):
             c = exc.constraint
-            return (n, str(c.constraint_path), c.size_max, c.size_already, str(exc.violator_path),
+            return (n, unroot(c.constraint_path, root), c.size_max, c.size_already, unroot(exc.violator_path, root),
                     int(exc.exceeded_by))
         if isinstance(exc, SizeConstraintSubceededError):
             c = exc.constraint
-            return (n, str(c.constraint_path), c.size_max, c.size_already)
+            return (n, unroot(c.constraint_path, root), c.size_max, c.size_already)
         if isinstance(exc, InputStreamBytesDepletedError):
             return (n, _cc(exc.command_code))
         if isinstance(exc, InputStreamSuperfluousBytesError):
@@ -145,10 +171,12 @@ def is_documented(exc):
     return isinstance(exc, DOCUMENTED)
 
 
-def marshal(front, tname, buffer, cc=None, enc=None, strict=True):
+def marshal(front, tname, buffer, cc=None, enc=None, strict=True, root=""):
     """the generator of the requested front-end"""
     t = get_type(tname)
     kw = dict(tpm_type=t, buffer=buffer, command_code=cc, abort_on_error=strict)
+    if root:
+        kw["root_path"] = parse_root(root)
     if enc is not None:
         kw["parameter_encryption"] = enc
     return FRONTS[front].marshal(**kw)
